@@ -319,7 +319,8 @@ struct fit_bspline_objective
     t1 = rt1;
 
     NumData = static_cast<Eigen::Index>(std::min(std::ranges::size(ts), std::ranges::size(gs)));
-    NumPts  = static_cast<Eigen::Index>(K + static_cast<Eigen::Index>((t1 - t0 + dt) / dt));
+    // last data point lies in interval number floor((t1 - t0) / dt) (same expression as in operator() / jacobian)
+    NumPts  = static_cast<Eigen::Index>(K + 1 + static_cast<Eigen::Index>((t1 - t0) / dt));
   }
 
   /// @brief Objective function
